@@ -25,7 +25,14 @@ Each expression is run un-annotated and annotated (annotate_types with schema t(
 NULL); columns are then qualified t.x, which eval3 ignores).  Dialects: None, mysql (SAFE_TO_ELIMINATE_DOUBLE_NEGATION =
 False), redshift (COALESCE_COMPARISON_NON_STANDARD = True).
 
-Violation key:  c06:<function>:<rule|whole>:<kind>:<AND|OR|NOT|other>
+coalesce_simplification=True (the only way Simplifier.simplify_coalesce runs) is an extra configuration of simplify /
+simplify_cp for inputs that contain COALESCE.  Observation must not change behaviour: on every 16th input each function
+is re-run with the wrappers passing through and the two results must be identical (CheckerError otherwise).
+Rules that cannot fire inside the fragment (simplify_concat, simplify_datetrunc, simplify_startswith: strings / dates)
+are observed but not claimed.
+
+Violation key:  c06:<function>:<rule|whole>:<kind>:<AND|OR|NOT|other>   (connector = class of the node the rule was
+applied to; for 'whole' / exceptions the class of the input's root)
   kind in NULL->FALSE NULL->TRUE TRUE->FALSE FALSE->TRUE TRUE->NULL FALSE->NULL int-value not-normal-form exception:<Class>
 """
 import collections
